@@ -74,6 +74,113 @@ fn guarded<R>(f: impl FnOnce() -> R) -> Result<R, PanicInfo> {
 }
 
 // ---------------------------------------------------------------------------------------
+// F27: a caller that is a multi-threaded program. Two helper threads per evaluating thread;
+// an action is handed to one of them and the evaluating thread blocks until it has returned,
+// so exactly one thread runs at any time and the schedule (not the OS) decides which.
+
+type Job = Box<dyn FnOnce() + Send + 'static>;
+
+struct Helper {
+    tx: std::sync::mpsc::Sender<Job>,
+    done: std::sync::mpsc::Receiver<()>,
+    tid: u64,
+}
+
+thread_local! {
+    static HELPERS: RefCell<Vec<Helper>> = const { RefCell::new(Vec::new()) };
+    static MIGRATED: Cell<u64> = const { Cell::new(0) };
+}
+
+/// number of actions executed on a helper thread by this thread's runs so far
+pub fn migrated_actions() -> u64 {
+    MIGRATED.with(|m| m.get())
+}
+
+fn spawn_helper() -> Helper {
+    let (tx, rx) = std::sync::mpsc::channel::<Job>();
+    let (done_tx, done) = std::sync::mpsc::channel::<()>();
+    let (tid_tx, tid_rx) = std::sync::mpsc::channel::<u64>();
+    std::thread::Builder::new()
+        .name("dtr-sim-helper".into())
+        .stack_size(64 << 20)
+        .spawn(move || {
+            let _ = tid_tx.send(crate::engine::my_tid());
+            for job in rx {
+                job();
+                if done_tx.send(()).is_err() {
+                    break;
+                }
+            }
+        })
+        .expect("harness: cannot spawn helper thread");
+    let tid = tid_rx.recv().unwrap_or(0);
+    Helper { tx, done, tid }
+}
+
+struct AssertSend<T>(T);
+// SAFETY: the sending thread blocks until the job has completed (see `on_thread`), so the
+// captured state (Rc-based logs, &mut iterators) is never touched by two threads at once;
+// the channel send/receive pair orders the accesses.
+unsafe impl<T> Send for AssertSend<T> {}
+
+/// Executes `f` on OS thread `which` (0 = the calling thread, 1.. = helper threads) and
+/// returns its result once it has finished. A job that keeps its helper busy for more CPU
+/// time than a healthy run can need makes the waiting thread spin, so that the per-thread CPU
+/// watchdogs (engine.rs) see the hang where they look for it.
+fn on_thread<R>(which: usize, f: impl FnOnce() -> R) -> R {
+    if which == 0 {
+        return f();
+    }
+    MIGRATED.with(|m| m.set(m.get() + 1));
+    HELPERS.with(|h| {
+        let mut h = h.borrow_mut();
+        while h.len() < which {
+            h.push(spawn_helper());
+        }
+        let helper = &h[which - 1];
+        let mut slot: Option<R> = None;
+        {
+            let slot_ref = AssertSend(&mut slot as *mut Option<R>);
+            let f = AssertSend(f);
+            let job: Box<dyn FnOnce() + Send + '_> = Box::new(move || {
+                let slot_ref = slot_ref;
+                let f = f;
+                let r = (f.0)();
+                // SAFETY: `slot` outlives the job because the caller waits for `done` below
+                unsafe { *slot_ref.0 = Some(r) };
+            });
+            // SAFETY: the job is finished (or its thread is gone) before this block is left
+            let job: Job = unsafe { std::mem::transmute(job) };
+            helper.tx.send(job).expect("harness: helper thread is gone");
+            let cpu0 = crate::engine::thread_cpu_ticks(helper.tid).unwrap_or(0);
+            loop {
+                match helper.done.recv_timeout(std::time::Duration::from_millis(500)) {
+                    Ok(()) => break,
+                    Err(std::sync::mpsc::RecvTimeoutError::Timeout) => {
+                        let used = crate::engine::thread_cpu_ticks(helper.tid)
+                            .unwrap_or(0)
+                            .saturating_sub(cpu0);
+                        if used > 100 {
+                            // more than a second of CPU inside one action: mirror the
+                            // helper's consumption on this thread (bounded busy wait)
+                            let until = std::time::Instant::now()
+                                + std::time::Duration::from_millis(450);
+                            while std::time::Instant::now() < until {
+                                std::hint::spin_loop();
+                            }
+                        }
+                    }
+                    Err(std::sync::mpsc::RecvTimeoutError::Disconnected) => {
+                        panic!("harness: helper thread died")
+                    }
+                }
+            }
+        }
+        slot.expect("harness: helper returned nothing")
+    })
+}
+
+// ---------------------------------------------------------------------------------------
 // records
 
 #[derive(Clone, Copy, Debug, PartialEq, Eq, Hash)]
@@ -414,7 +521,10 @@ pub fn run_case_text(case: &Case, text: &str) -> RunOut {
     let _ = verif_hooks::take_draw_log();
     let signals: Vec<Signal> = case.signals.iter().map(real_signal).collect();
 
-    let (parsed, tc) = match parse_and_bind(text, &signals, case.hash_seed) {
+    let first = on_thread(case.thread_for(1_000_003, 0), || {
+        parse_and_bind(text, &signals, case.hash_seed)
+    });
+    let (parsed, tc) = match first {
         Err(load) => {
             out.load = load;
             out.log_hash = hash_of(&out);
@@ -432,8 +542,11 @@ pub fn run_case_text(case: &Case, text: &str) -> RunOut {
     out.header = parsed.signals.clone();
 
     // further parses of the same text under other hash orders
-    for hs in &case.reparse {
-        let r = match parse_and_bind(text, &signals, *hs) {
+    for (k, hs) in case.reparse.iter().enumerate() {
+        let again = on_thread(case.thread_for(1_000_005, k as u64), || {
+            parse_and_bind(text, &signals, *hs)
+        });
+        let r = match again {
             Err(load) => Reparse {
                 hash_seed: *hs,
                 parsed_equal: false,
@@ -469,7 +582,9 @@ pub fn run_case_text(case: &Case, text: &str) -> RunOut {
 
     // (a caller that asks for the static rows before it runs the test against a device)
     if case.run_static && case.static_first {
-        out.statik = Some(run_static_part(&tc, case));
+        out.statik = Some(on_thread(case.thread_for(1_000_004, 0), || {
+            run_static_part(&tc, case)
+        }));
     }
 
     // DUTs
@@ -516,7 +631,11 @@ pub fn run_case_text(case: &Case, text: &str) -> RunOut {
             let before = logs[i].borrow().len();
             hists[i].stray_calls += before - seen[i];
             let seq_invoke = tick(&seq);
-            let res = guarded(|| it.next().map(|r| r.map(|row| row_rec(all, &row))));
+            let step_no = hists[i].steps.len();
+            let (res, step_draws) = on_thread(case.thread_for(i as u64, step_no as u64), || {
+                let res = guarded(|| it.next().map(|r| r.map(|row| row_rec(all, &row))));
+                (res, draws())
+            });
             let seq_return = tick(&seq);
             let after = logs[i].borrow().len();
             seen[i] = after;
@@ -546,19 +665,20 @@ pub fn run_case_text(case: &Case, text: &str) -> RunOut {
                     }
                 }
             };
-            let step_no = hists[i].steps.len();
             hists[i].steps.push(StepRec {
                 seq_invoke,
                 seq_return,
                 calls: (before, after),
                 item,
-                draws: draws(),
+                draws: step_draws,
             });
             let yielded_row = matches!(hists[i].steps[step_no].item, Item::Row(_));
             if go_on && yielded_row && case.inspects(step_no) {
                 let it = its[i].as_ref().unwrap();
                 let s = tick(&seq);
-                let r = guarded(|| it.vars());
+                let r = on_thread(case.thread_for(100 + i as u64, step_no as u64 + 1), || {
+                    guarded(|| it.vars())
+                });
                 let now = logs[i].borrow().len();
                 hists[i].vars.push(VarsRec {
                     after_steps: step_no + 1,
@@ -580,20 +700,24 @@ pub fn run_case_text(case: &Case, text: &str) -> RunOut {
                     }
                     let Some(d) = dut_refs[i].take() else { continue };
                     hists[i].constructed = true;
-                    verif_hooks::set_entropy(Some(case.entropy.get(i).copied().unwrap_or(0)));
                     let before = logs[i].borrow().len();
                     let s0 = tick(&seq);
-                    let res = guarded(|| match d {
-                        AnyDut::Ov(d) => tc.try_iter(d).map(AnyIter::Ov),
-                        AnyDut::De(d) => tc.try_iter(d).map(AnyIter::De),
+                    let tc_ref = &tc;
+                    let (res, ctor_draws) = on_thread(case.thread_for(200 + i as u64, 0), || {
+                        verif_hooks::set_entropy(Some(case.entropy.get(i).copied().unwrap_or(0)));
+                        let res = guarded(|| match d {
+                            AnyDut::Ov(d) => tc_ref.try_iter(d).map(AnyIter::Ov),
+                            AnyDut::De(d) => tc_ref.try_iter(d).map(AnyIter::De),
+                        });
+                        verif_hooks::set_entropy(None);
+                        (res, draws())
                     });
                     let s1 = tick(&seq);
-                    verif_hooks::set_entropy(None);
                     let after = logs[i].borrow().len();
                     seen[i] = after;
                     hists[i].ctor_seq = (s0, s1);
                     hists[i].ctor_calls = (before, after);
-                    hists[i].ctor_draws = draws();
+                    hists[i].ctor_draws = ctor_draws;
                     hists[i].ctor = Some(match res {
                         Err(p) => Ctor::Panic(p),
                         Ok(Err(IterationError::Driver(e))) => Ctor::DriverErr(e.id),
@@ -637,9 +761,11 @@ pub fn run_case_text(case: &Case, text: &str) -> RunOut {
                     let Some(it) = its[i].as_ref() else { continue };
                     let before = logs[i].borrow().len();
                     let s = tick(&seq);
-                    let r = guarded(|| it.vars());
-                    let now = logs[i].borrow().len();
                     let after_steps = hists[i].steps.len();
+                    let r = on_thread(case.thread_for(100 + i as u64, after_steps as u64), || {
+                        guarded(|| it.vars())
+                    });
+                    let now = logs[i].borrow().len();
                     hists[i].vars.push(VarsRec {
                         after_steps,
                         seq: s,
@@ -668,7 +794,9 @@ pub fn run_case_text(case: &Case, text: &str) -> RunOut {
     out.iters = hists;
 
     if case.run_static && !case.static_first {
-        out.statik = Some(run_static_part(&tc, case));
+        out.statik = Some(on_thread(case.thread_for(1_000_004, 0), || {
+            run_static_part(&tc, case)
+        }));
     }
 
     out.log_hash = hash_of(&out);
